@@ -13,6 +13,9 @@ const RULES: &[&str] = &[
     "/promo^$important", "||frame.example.com^$csp=script-src 'none'", "||frame.example.com^$csp=img-src *,tag=t1", "/tagged^x$tag=t1",
     "@@||g.example.com^$generichide", "||r.example.com^*.gif$redirect=1x1.gif", "/q?*utm=$removeparam=utm", "-banner-*-300x", "/a*b*c*d",
     // regex rules pinned on exactly one side: a recompiled regex must keep the anchor on the same side
+    // token-less wildcard rules with one option mask: fused into one regex set (each pattern must survive a
+    // discard-and-rebuild of that set)
+    "adfr*wide", "spon*tall", "trk*pix",
     "/promo2/*.gif|", "|https://one.example/*/collect", "/lft*.png|$image", "|https://lft.example/*x$script",
     "example.com##.ad", "sub.example.com#@#.ad", "##.generic", "example.com##+js(sc, 1)", "g.example.com##.g", "##div[ad]",
 ];
@@ -32,6 +35,8 @@ pub fn queries() -> Vec<(String, String, String, String)> {
         ("https://one.example/v1/collect", "https://y.com/", "xhr"), ("https://two.example/?u=https://one.example/v1/collect", "https://y.com/", "xhr"),
         ("https://x.com/lft/a.png", "https://y.com/", "image"), ("https://x.com/lft/a.png#f", "https://y.com/", "image"),
         ("https://lft.example/ax", "https://y.com/", "script"), ("https://x.com/https://lft.example/ax", "https://y.com/", "script"),
+        ("https://x.com/adfr/300/wide.png", "https://y.com/", "image"), ("https://x.com/spon/9/tall.png", "https://y.com/", "image"),
+        ("https://x.com/trk/1/pix.gif", "https://y.com/", "image"), ("https://app.example.com/#/inbox?tab=unread", "https://y.com/", "xhr"),
     ] {
         v.push(("net".to_string(), u.to_string(), s.to_string(), t.to_string()));
     }
